@@ -36,6 +36,7 @@ CONFIGS = [
     ("Beam_static", "Beam", ["displacement"]),
     ("Beam_newmark", "Beam", ["displacement", "speed", "accel"]),
     ("PhaseField", "PhaseField", ["damage", "displacement"]),
+    ("PhaseField_HistoryDamage", "PhaseField", ["damage", "displacement"]),
     ("HyperElastic_static", "HyperElastic", ["displacement"]),
     ("HyperElastic_newmark", "HyperElastic", ["displacement", "speed", "accel"]),
     ("InElastic", "InElastic", ["displacement", "state"]),
@@ -276,7 +277,21 @@ def derive_class(repo, cname):
             for nm in [x.id for x in ast.walk(n.value) if isinstance(x, ast.Name)]:
                 for srcs in local.get(nm, []):
                     copy_keys |= set(re.findall(r"results(?:\.get\(|\[)['\"]([A-Za-z_]+)['\"]", srcs))
-    return {"restore_copy_keys": sorted(copy_keys), "guarded_restore": guarded,"stored": stored, "unsaved_internal": unsaved, "reads": sorted(reads), "restore_binds": restore_binds,
+    lowered_by_need_update, lowered_by_set_iter = set(), set()
+    for n in cls.body:
+        if isinstance(n, ast.FunctionDef) and n.name == "Need_Update":
+            for x in ast.walk(n):
+                if isinstance(x, ast.Assign) and len(x.targets) == 1 and _is_self_attr(x.targets[0]) and re.fullmatch(r"not value", _src(x.value)):
+                    lowered_by_need_update.add(x.targets[0].attr)
+    for x in ast.walk(si):
+        if isinstance(x, ast.Assign) and isinstance(x.value, ast.Constant) and x.value.value is False:
+            for t in x.targets:
+                if _is_self_attr(t):
+                    lowered_by_set_iter.add(t.attr)
+        if isinstance(x, ast.Call) and _src(x.func) in ("self.Need_Update",) and not x.args:
+            lowered_by_set_iter |= lowered_by_need_update
+    stale = sorted(lowered_by_need_update - lowered_by_set_iter)
+    return {"cache_flags": sorted(lowered_by_need_update), "cache_flags_not_lowered_by_set_iter": stale, "restore_copy_keys": sorted(copy_keys), "guarded_restore": guarded,"stored": stored, "unsaved_internal": unsaved, "reads": sorted(reads), "restore_binds": restore_binds,
             "line_save": sv.lineno, "line_set": si.lineno}
 
 
@@ -382,6 +397,7 @@ def gen_coq(base, classes):
     lines.append("Definition restores_mesh : bool := %s." % b(base["restores_mesh"]))
     lines.append("Definition get_results_stateless : bool := %s." % b(base["get_results_stateless"]))
     lines.append("Definition restores_unconditionally : bool := %s." % b(not any(classes[c]["guarded_restore"] for c in classes)))
+    lines.append("Definition restore_invalidates_derived : bool := %s." % b(not any(classes[c]["cache_flags_not_lowered_by_set_iter"] for c in classes)))
     lines.append("Definition disk_reads_uncached : bool := %s." % b(base["disk_reads_uncached"]))
     lines.append("Definition stores_all_restored_rates : bool := %s." % b(base.get("stores_all_restored_rates", True)))
     return "\n".join(lines) + "\n", cfgs
@@ -468,6 +484,8 @@ def gen_case(rng, cid, aname, nfields_model, nkeys, length, allow, copy_fields=(
                 ops.append(["SetIter", niter])   # out of range: rejected, nothing changes
             else:
                 i = rng.randrange(niter)
+                if rng.random() < 0.3:
+                    ops.append(["Warm"])   # matrices / energies of the current state were just looked at
                 h.restore(i, "SetIterNeg" if rng.random() < 0.4 else "SetIter", replay=rng.random() < 0.5)
         elif r < 0.76:
             if rng.random() < 0.4:
@@ -524,6 +542,26 @@ def gen_directed(rng, cid, aname, nf, nkeys, kind, allow):
                 ops.append(["ResultQ", rng.randrange(h.niter), rng.randrange(nkeys)])
         if rng.random() < 0.5:
             h.setmesh(); h.solve(); h.save(); h.restore(rng.randrange(h.niter))
+    elif kind == "results":
+        # every advertised result of iteration i equals the one obtained at the time, also when the caches of the
+        # current state are warm (energies / matrices just queried) when the older iteration is looked at
+        h.solve(); h.save()
+        for _ in range(rng.choice([2, 3])):
+            h.solve(); h.save()
+        h.solve()
+        for _ in range(3):
+            ops.append(["Warm"])
+            i = rng.randrange(h.niter)
+            c = rng.random()
+            if c < 0.4:
+                ops.append(["ResultQ", i, rng.randrange(nkeys)]); h.base = i
+            else:
+                h.restore(i, rng.choice(["SetIter", "SetIterNeg"]), replay=False)
+        ops.append(["Warm"])
+        h.restore(rng.randrange(h.niter - 1), replay=True)      # restart with warm caches
+        h.save()
+        ops.append(["Warm"])
+        h.restore(rng.randrange(h.niter), "SetIterNeg", replay=True)
     elif kind == "rates":
         # time-dependent algorithms: a loaded trajectory, restore NON-latest iterations and replay the step
         # that originally followed them (needs u, v, a / thermalDot of that iteration exactly)
@@ -608,7 +646,7 @@ def model_eval(ctx, cases, cfgs, unsupported):
         body = CASES_HEAD
         part = cases[c0:c0 + chunk]
         for c in part:
-            ops = [o for o in c["ops"] if not (o[0] in unsupported.get(c["sim"], ()))]
+            ops = [o for o in c["ops"] if o[0] != "Warm" and not (o[0] in unsupported.get(c["sim"], ()))]
             body += "Eval vm_compute in (enc cfg_%s (run cfg_%s [%s] (init cfg_%s))).\n" % (c["sim"], c["sim"], "; ".join(coq_op(o) for o in ops), c["sim"])
         rc, out = ctx.coq_eval("cases_%d.v" % c0, body, timeout=600)
         if rc != 0:
@@ -725,6 +763,7 @@ def run(ctx):
         open(os.path.join(ctx.build, "Gen_C15.v"), "w").write(gen)
         ctx.cov["derived_flags"] = base
         ctx.cov["stored_keys_per_algorithm"] = {c: {a: per_algo[c][a]["stored"] for a in accepted[c]} for c in ("Elastic", "Thermal", "HyperElastic", "WeakForms")}
+        ctx.cov["cache_validity_flags"] = {c: {"flags": classes[c]["cache_flags"], "not_lowered_by_Set_Iter": classes[c]["cache_flags_not_lowered_by_set_iter"]} for c in classes if classes[c]["cache_flags"]}
         ctx.cov["guarded_restores"] = {c: classes[c]["guarded_restore"] for c in classes if classes[c]["guarded_restore"]}
         ctx.cov["derived_configs"] = {k: {kk: vv for kk, vv in v.items()} for k, v in cfgs.items()}
         aux_alias = {c: [k for k, (kind, s) in classes[c]["stored"].items() if kind == "alias"] for c in classes}
@@ -803,6 +842,10 @@ def run(ctx):
             cases.append(timed(gen_case(ctx.rng, cid, aname, nf_model, len(keys), length, allow,
                                         cfgs[aname]["restore_copy_fields"] if base is not None else ())))
             cid += 1
+        c = timed(gen_directed(ctx.rng, cid, aname, nf_model, len(keys), "results", full))
+        c["allresults"] = True
+        cases.append(c)
+        cid += 1
         for j in range(ndirected):
             kind = ["meshes", "virgin", "last"][j % 3]
             c = timed(gen_directed(ctx.rng, cid, aname, nf_model, len(keys), kind, full - ({"saveload"} if aname in ("Beam_static", "Beam_newmark", "InElastic") else set())))
@@ -889,7 +932,23 @@ def run(ctx):
                 what = "%s: %s at op %d: %s" % (c["sim"], k, f["step"], json.dumps(d)[:200])
                 exp = "after Set_Iter(i) / Result(iter=i) / Get_results(i): fields, mesh and results bitwise equal to the ghost copies taken at Save_Iter i"
                 ks = [k]
-            elif k == "continuation-differs" and cls == "PhaseField":
+            elif k == "result-query-impure":
+                key = "result-query-impure:%s" % cls
+                what = "%s: %s" % (c["sim"], d.get("what"))
+                exp = "reading results / assembled matrices of the current state changes nothing"
+                ks = [k]
+            elif k == "result-iter-differs" and c["sim"] != "PhaseField":
+                key = "result-iter-differs:%s:%s" % (cls, d["results"][0].split("|")[0])
+                what = "%s: results %s queried for iteration %d (via %s%s) differ from those obtained when it was saved: now %s, at the time %s" % (
+                    c["sim"], d["results"], d["iter"], d.get("via"), ", caches of the previous state warm" if d.get("warm") else "", d.get("now"), d.get("at_save_time"))
+                exp = "every advertised result (Results_Available, node and element values) of a restored iteration equals the one obtained at save time (1e-9 relative)"
+                ks = [k]
+            elif k == "continuation-differs" and c["sim"] == "PhaseField_HistoryDamage":
+                key = "continuation-differs:PhaseField:%s" % ("warm-cache" if d.get("warm") else "HistoryDamage")
+                what = "PhaseField (HistoryDamage solver): the Solve replayed after Set_Iter(i) differs from the Solve that originally continued iteration i: %s" % json.dumps(d)[:200]
+                exp = "the same Solve from the restored iteration reproduces the original next iterate (1e-9 relative)"
+                ks = [k]
+            elif k in ("continuation-differs", "result-iter-differs") and c["sim"] == "PhaseField":
                 key = "history-not-restored:PhaseField:resetAll=False"
                 what = "PhaseField (History solver): the Solve replayed after Set_Iter(i) differs from the Solve that originally continued iteration i (history field not stored/restored): %s" % json.dumps(d)[:200]
                 exp = "same continuation"
@@ -983,6 +1042,7 @@ def run(ctx):
     ctx.cov["op_distribution"] = opdist
     ctx.cov["sim_distribution"] = simdist
     ctx.cov["algorithm_coverage"] = algodist
+    ctx.cov["cases_comparing_all_advertised_results"] = {c["sim"]: r.get("n_results_recorded", 0) for c, r in zip(cases, impl["cases"]) if c.get("allresults")}
     ctx.cov["cases_on_mixed_type_meshes"] = len([c for c in cases if c.get("mixed")])
     ctx.cov["cases_with_second_simulation_in_same_folders"] = len([c for c in cases if c.get("twin")])
     ctx.cov["model_vs_impl_final_states_compared"] = ncmp
@@ -995,7 +1055,7 @@ def run(ctx):
     if mism:
         c, d = mism[0]
         ctx.violation("corr:model-vs-impl:%s" % c["sim"].split("_")[0], "model and implementation disagree on the final observation of %s: %s" % (c["sim"], "; ".join(d[:3])),
-                      {"case": c, "differences": d[:10], "model": model.get(c["id"]), "replay_py": REPLAY_CASE % dict(verif=common.VERIF, req={"cases": [c], "probes": []}, kinds=["store-changed", "restore-fields", "restore-mesh", "restore-internal", "continuation-differs", "load-mesh-group-order", "element-results", "result-value", "get-results-value", "get-results-impure", "save-load", "crash"], after=None, expected="the property predicates hold on this op list (the disagreement is then a modelling gap)")},
+                      {"case": c, "differences": d[:10], "model": model.get(c["id"]), "replay_py": REPLAY_CASE % dict(verif=common.VERIF, req={"cases": [c], "probes": []}, kinds=["store-changed", "restore-fields", "restore-mesh", "restore-internal", "continuation-differs", "load-mesh-group-order", "element-results", "result-iter-differs", "result-query-impure", "result-value", "get-results-value", "get-results-impure", "save-load", "crash"], after=None, expected="the property predicates hold on this op list (the disagreement is then a modelling gap)")},
                       found_input=False)
     ctx.obligation("corr:property-predicates", not seen_keys, "; ".join(sorted(seen_keys))[:600])
     for key, (c, ks, what, exp, aft) in sorted(seen_keys.items()):
